@@ -84,6 +84,8 @@ def run(facts, rep):
         blk = {}
         for nm in ('a', 'b', 'c', 'd'):
             ts = loc.get(nm) or set()
+            # a later shadowing `let b = ..` may reuse the name: the block is the divide4 element
+            ts = {x for x in ts if strip(x)[0] == 'index' and strip(x)[1][0] == 'call' and strip(x)[1][1].endswith('SpMat::<R>::divide4')} or ts
             if len(ts) != 1:
                 raise Bad('block `%s` not found' % nm)
             t = strip(list(ts)[0])
@@ -181,34 +183,42 @@ def run(facts, rep):
         # the two transforms: Trans::new(forward, backward)
         F = {}
         Bk = {}
+
+        def handle(p, f, bw):
+            # forward
+            fk = selector_kind(f)
+            if fk == 'proj':
+                fwd = ('row', [ZERO, ONE])
+            elif f[0] == 'post':
+                ev = [e for e in p.calls() if e.site == f[1]]
+                if not ev or ev[0].name.split('::')[-1] != 'extend_cols' or selector_kind(ev[0].args[1]) != 'id':
+                    raise Bad('forward map of the target transform is not `x.extend_cols(id)`')
+                fwd = ('row', [mat(ev[0].pre[0]), ONE])
+            else:
+                raise Bad('unrecognised forward map ' + sk(f)[:80])
+            # backward
+            bk_ = selector_kind(bw)
+            bs = strip(bw)
+            if bk_ == 'incl':
+                back = ('col', [ZERO, ONE])
+            elif bs[0] == 'call' and bs[1].split('::')[-1] == 'stack' and len(bs[2]) == 2 and selector_kind(bs[2][1]) == 'id':
+                back = ('col', [mat(bs[2][0]), ONE])
+            else:
+                raise Bad('unrecognised backward map ' + sk(bw)[:80])
+            side = 'src' if fwd[1][0] == ZERO else 'tgt'
+            F[side], Bk[side] = fwd[1], back[1]
         for k, b in closures.items():
             for p in SymEx(b).run():
                 r = p.ret
                 if p.end != 'return' or r is None or r[0] != 'call' or not r[1].endswith('trans::Trans::<R>::new') or len(r[2]) != 2:
                     continue
-                f, bw = r[2]
-                # forward
-                fk = selector_kind(f)
-                if fk == 'proj':
-                    fwd = ('row', [ZERO, ONE])
-                elif f[0] == 'post':
-                    ev = [e for e in p.calls() if e.site == f[1]]
-                    if not ev or ev[0].name.split('::')[-1] != 'extend_cols' or selector_kind(ev[0].args[1]) != 'id':
-                        raise Bad('forward map of the target transform is not `x.extend_cols(id)`')
-                    fwd = ('row', [mat(ev[0].pre[0]), ONE])
-                else:
-                    raise Bad('unrecognised forward map ' + sk(f)[:80])
-                # backward
-                bk_ = selector_kind(bw)
-                bs = strip(bw)
-                if bk_ == 'incl':
-                    back = ('col', [ZERO, ONE])
-                elif bs[0] == 'call' and bs[1].split('::')[-1] == 'stack' and len(bs[2]) == 2 and selector_kind(bs[2][1]) == 'id':
-                    back = ('col', [mat(bs[2][0]), ONE])
-                else:
-                    raise Bad('unrecognised backward map ' + sk(bw)[:80])
-                side = 'src' if fwd[1][0] == ZERO else 'tgt'
-                F[side], Bk[side] = fwd[1], back[1]
+                handle(p, r[2][0], r[2][1])
+        if set(F) != {'src', 'tgt'}:
+            # the transforms may be built in the function body itself (plain blocks instead of `then(|| ..)` closures)
+            for p in SymEx(root, max_paths=20000).run():
+                for e in p.calls():
+                    if e.name.endswith('trans::Trans::<R>::new') and len(e.args) == 2:
+                        handle(p, e.args[0], e.args[1])
         if set(F) != {'src', 'tgt'}:
             raise Bad('source / target transforms not both recognised (%s)' % sorted(F))
 
